@@ -8,7 +8,9 @@ CONSTANTS
   MaxCands = 3
   SubBeforeExact = TRUE
   Positive = TRUE
+  QSplits = FALSE
 INVARIANT SpecificityOrder
 INVARIANT BestIsFirstMax
 INVARIANT QZeroNeverChosen
+INVARIANT QPositionIrrelevant
 INVARIANT EmitCase
